@@ -317,6 +317,29 @@ pub fn judge(w: &World, r: &RunResult) -> Vec<Violation> {
             }
         }
     }
+    // the key service sees the same calls whether or not the user exists (it is a party too: a
+    // key that is asked for its public key only for registered users learns — and, when it
+    // fails, reveals — who is registered)
+    {
+        let mut real: Option<(usize, Vec<String>)> = None;
+        for (i, (op, e)) in w.ops.iter().zip(r.events.iter()).enumerate() {
+            if let (Op::LoginRespond { record: Some(_), .. }, Ok(_), false) = (op, &e.res, e.skipped) {
+                real = Some((i, e.hsm_calls.iter().filter(|c| c.as_str() != "Clone").cloned().collect()));
+                break;
+            }
+        }
+        if let Some((ri, rc)) = real {
+            for (i, (op, e)) in w.ops.iter().zip(r.events.iter()).enumerate() {
+                if let (Op::LoginRespond { record: None, .. }, Ok(_), false) = (op, &e.res, e.skipped) {
+                    let fc: Vec<String> = e.hsm_calls.iter().filter(|c| c.as_str() != "Clone").cloned().collect();
+                    if fc != rc {
+                        v.push(Violation { clause: "fake_structure", op: i, detail: format!("the external key is called differently for a user without a password file (op {i}: {fc:?}) than for a registered one (op {ri}: {rc:?})") });
+                        break;
+                    }
+                }
+            }
+        }
+    }
     // entropy accounting: the no-record answer carries one more fresh value than the with-record
     // answer, a stand-in masking key of Nh bytes; it cannot have come out of fewer than Nh
     // additional bytes of tape (minima over the run, so that rejection sampling is no alarm)
@@ -342,7 +365,7 @@ pub fn judge(w: &World, r: &RunResult) -> Vec<Violation> {
 
 pub fn run(ctx: &Ctx) -> Report {
     let mut rep = Report::new(
-        "per world: one registration, 2 real logins and 4 fake attempts (unregistered id twice, registered id without record, again) interleaved; each fake request is also answered with the real record and once more without; each real request is replayed to the server once; 2 crafted requests (key share := the password file's client key / the server's key) are sent for the registered identifier with and without the file and for the unregistered one and must be answered or refused alike. Checked: equal length + decodes; evaluation element equal for equal (setup, request, credential id) with or without record; masking nonce / masked response / server nonce / server ephemeral key / MAC never repeat across the run; fake response must not unmask to server_pk‖0 under any key visible outside that call (zero, 0xFF, real masking keys, any Nh-byte draw of another call) and must have drawn at least Nh bytes of tape more than a with-record answer; client gets InvalidLoginError; zero / 0xFF / random / real finalizations and MACs/hashes over constants (computable without any secret) never complete a fake server state. What is decidable is non-repetition and tape-dependence, not unpredictability as such",
+        "per world: one registration, 2 real logins and 4 fake attempts (unregistered id twice, registered id without record, again) interleaved; each fake request is also answered with the real record and once more without; each real request is replayed to the server once; 2 crafted requests (key share := the password file's client key / the server's key) are sent for the registered identifier with and without the file and for the unregistered one and must be answered or refused alike. Checked: equal length + decodes; evaluation element equal for equal (setup, request, credential id) with or without record; masking nonce / masked response / server nonce / server ephemeral key / MAC never repeat across the run; fake response must not unmask to server_pk‖0 under any key visible outside that call (zero, 0xFF, real masking keys, any Nh-byte draw of another call) and must have drawn at least Nh bytes of tape more than a with-record answer; with an externally held key the key service must see the same calls with and without a password file; client gets InvalidLoginError; zero / 0xFF / random / real finalizations and MACs/hashes over constants (computable without any secret) never complete a fake server state. What is decidable is non-repetition and tape-dependence, not unpredictability as such",
     );
     let mut suites: Vec<&'static dyn SuiteOps> = SIM_SUITES.to_vec();
     suites.extend(ID_SUITES.iter().step_by(ctx.pick(4, 1)));
